@@ -1,30 +1,17 @@
+//! `hv_sim_b`: corpus flows + simulator-driven monitors (in `#[cfg(test)] mod tests`) for
+//! C40 (replicated logs never diverge; primary), and the simulator halves of C31 (slices),
+//! C34 (atomic read-after-write) and C39 (quorum helpers).
+//!
+//! Everything a `q!` closure names lives in this (non-test) part of the crate; the tests only wire
+//! simulator ports around these functions. `nondet!(/** observer */)` marks observation scaffolding
+//! that is outside the program being judged.
 #[cfg(stageleft_runtime)]
 hydro_lang::setup!();
 
-use hydro_lang::prelude::*;
+pub mod flows;
 
-/// Example flow (replace).
-pub fn double<'a>(input: Stream<i64, Process<'a, ()>>) -> Stream<i64, Process<'a, ()>> {
-    input.map(q!(|x| x * 2))
-}
-
+// `cfg(stageleft_runtime)`: keeps the harness out of the staged copy of this crate that the simulator
+// compiles (stageleft drops `impl` blocks there); it contains no `q!` code.
 #[cfg(test)]
-mod tests {
-    use hydro_lang::prelude::*;
-
-    /// Example sim-driven check (replace). Run with:
-    ///   cargo test -p <crate> --release -- example_sim --nocapture
-    #[test]
-    fn example_sim() {
-        let mut flow = FlowBuilder::new();
-        let process = flow.process::<()>();
-        let (in_port, requests) = process.sim_input();
-        let out_port = super::double(requests).sim_output();
-        let n = flow.sim().exhaustive(async || {
-            in_port.send(1);
-            in_port.send(2);
-            out_port.assert_yields_only([2, 4]).await;
-        });
-        println!("{{\"t\":\"note\",\"executions\":{n}}}");
-    }
-}
+#[cfg(stageleft_runtime)]
+mod tests;
